@@ -74,13 +74,17 @@ PROPS = {
         technique="Coq proof (protocol result is a legal update; prefix invariant) + lock-step correspondence",
     ),
     "C20": dict(
-        runs=[("coll", "store", "flatrun", 320, 6000, 24), TREE + (200, 3000, 24)],
+        runs=[("coll", "store", "flatrun", 320, 6000, 24), TREE + (200, 3000, 24), ("sync", "", "syncrun", 80, 2000, 0)],
         corr=STRUCT | READS, corr_held=False,
-        spec={"spec:zero-gauges-unpersisted", "tspec:zero-gauges-unpersisted", "tspec:zero-gauges-child-existence"},
+        spec={"spec:zero-gauges-unpersisted", "tspec:zero-gauges-unpersisted", "tspec:zero-gauges-child-existence",
+              "spec:gauges-stuck-nonzero"},
         spec_held=False,
         rule="Stats() gauges sampled at every label and compared with the model's; whenever they are zero the store's "
              "own snapshot must equal the reference (checked through the model's store footer); non-trivial = a key "
-             "has operations in >= 2 sections",
+             "has operations in >= 2 sections.  Converse (gauges return to zero): the wait/notify family's lost-wake-up "
+             "scenario - the persister completes a round and looks for a sleeping merger exactly between the merger's "
+             "skipped hand-over and its going to sleep - and its retry scenario must end with zero gauges within 5 s "
+             "without any further batch or notification",
         technique="Coq proof (zero dirty segments => lower level = reference) + gauges vs store content at every label",
     ),
     "C03": dict(
